@@ -335,12 +335,17 @@ fn tail(rc: &mut u64, fl: &mut u64, body: u64) -> Vec<Line> {
     t
 }
 
+/// abstracted (non-model) mutations at the end of raw[from..to]
+fn trailing_garbage(raw: &[(char, String)], from: usize, to: usize) -> u64 {
+    raw[from.min(raw.len())..to.min(raw.len())].iter().rev().take_while(|(op, p)| model_event(*op, p).is_none()).count() as u64
+}
+
 fn model_count(raw: &[(char, String)], from: usize, to: usize) -> u64 {
     raw[from.min(raw.len())..to.min(raw.len())].iter().filter(|(op, p)| model_event(*op, p).is_some()).count() as u64
 }
 
 /// all variants of a base workload (`full`: every cut / every nested cut / every single fault)
-fn variants(rt: &tokio::runtime::Runtime, base: &[Line], rng: &mut Rng, full: bool, clean: &VarOut) -> Vec<(String, Vec<Line>)> {
+fn variants(rt: &tokio::runtime::Runtime, base: &[Line], rng: &mut Rng, full: bool, clean: &VarOut, mem: bool) -> Vec<(String, Vec<Line>)> {
     let _ = rt;
     let mut out = vec![];
     let n_base = base.len();
@@ -373,7 +378,7 @@ fn variants(rt: &tokio::runtime::Runtime, base: &[Line], rng: &mut Rng, full: bo
     for k in &cuts {
         let km = model_count(&clean.raw, 0, *k);
         let (mut rc2, mut fl2) = (rc, fl);
-        out.push((format!("crash@{k}"), with_tail(vec![Line::Arm(Kind::Crash, km, *k as u64)], vec![], &mut rc2, &mut fl2)));
+        out.push((format!("crash@{k}"), with_tail(vec![Line::Arm(Kind::Crash, km, if mem { trailing_garbage(&clean.raw, 0, *k) } else { *k as u64 })], vec![], &mut rc2, &mut fl2)));
     }
     // single faults on model-level mutations
     let mut poss: Vec<usize> = (0..n_real).filter(|i| model_event(clean.raw[*i].0, &clean.raw[*i].1).is_some()).collect();
@@ -386,7 +391,7 @@ fn variants(rt: &tokio::runtime::Runtime, base: &[Line], rng: &mut Rng, full: bo
         let kinds: Vec<Kind> = if full { vec![Kind::Fail, Kind::Unknown] } else { vec![if rng.chance(2, 3) { Kind::Unknown } else { Kind::Fail }] };
         for kind in kinds {
             let (mut rc2, mut fl2) = (rc, fl);
-            out.push((format!("{}@{p}", kind.name()), with_tail(vec![Line::Arm(kind, pm, p as u64)], vec![], &mut rc2, &mut fl2)));
+            out.push((format!("{}@{p}", kind.name()), with_tail(vec![Line::Arm(kind, pm, if mem { 0 } else { p as u64 })], vec![], &mut rc2, &mut fl2)));
         }
     }
     let _ = (&mut rc, &mut fl);
@@ -394,7 +399,7 @@ fn variants(rt: &tokio::runtime::Runtime, base: &[Line], rng: &mut Rng, full: bo
 }
 
 /// nested variants of one crash variant: a second fault inside the recovery
-fn nested(base_variant: &[Line], first: &VarOut, rng: &mut Rng, full: bool) -> Vec<(String, Vec<Line>)> {
+fn nested(base_variant: &[Line], first: &VarOut, rng: &mut Rng, full: bool, mem: bool) -> Vec<(String, Vec<Line>)> {
     let mut out = vec![];
     // the reopen that recovered from the power loss
     let Some(ri) = (0..base_variant.len()).find(|i| matches!(base_variant[*i], Line::Reopen(_)) && first.off_before.get(*i) == Some(&true) && first.raw_before[*i] != usize::MAX) else { return out };
@@ -417,7 +422,7 @@ fn nested(base_variant: &[Line], first: &VarOut, rng: &mut Rng, full: bool) -> V
         let kinds: Vec<Kind> = if full && is_model { vec![Kind::Crash, Kind::Unknown] } else if !full && is_model && rng.chance(1, 4) { vec![Kind::Unknown] } else { vec![Kind::Crash] };
         for kind in kinds {
             let mut v: Vec<Line> = base_variant[..ri].to_vec();
-            v.push(Line::Arm(kind, jm, j as u64));
+            v.push(Line::Arm(kind, jm, if !mem { j as u64 } else if kind == Kind::Crash { trailing_garbage(&first.raw, s, s + j) } else { 0 }));
             v.push(Line::Reopen(rc0)); // hit by the fault
             // later wall-clock stand-ins shift by one
             for l in &base_variant[ri..] {
@@ -476,7 +481,7 @@ impl Worker {
         clean_lines.extend(tail(&mut rc2, &mut fl2, 900));
         let (clean, small) = self.one(backend, format!("{name}/clean"), &clean_lines, true);
         let vars = match &clean.out {
-            Ok(o) => variants(&self.rt, base, rng, full, o),
+            Ok(o) => variants(&self.rt, base, rng, full, o, backend == Backend::Mem),
             Err(_) => vec![],
         };
         sink.lock().unwrap().push((backend, clean, small));
@@ -485,7 +490,7 @@ impl Worker {
             let (r, small) = self.one(backend, format!("{name}/{vn}"), &lines, true);
             let nest = match &r.out {
                 Ok(o) if vn.starts_with("crash@") && nested_budget > 0 && (full || rng.chance(1, 3)) => {
-                    let n = nested(&lines, o, rng, full);
+                    let n = nested(&lines, o, rng, full, backend == Backend::Mem);
                     if !n.is_empty() {
                         nested_budget -= 1;
                     }
